@@ -115,6 +115,11 @@ def mid_slope(cx, rep, prop='C04'):
             probs.append('f_dx is not a single two-way select: %s' % term_str(r)[:200])
         else:
             c = list(conds)[0]
+            from .boollogic import as_single_comparison
+            c1 = as_single_comparison(c)
+            if c1 is not None and c1 != c:
+                r = subst_term(r, {c: c1})
+                c = c1
             prod = None
             if c[0] == 'fcmp' and c[1] == 'le' and c[3] == ('fc', 0):
                 prod = c[2]
